@@ -413,7 +413,7 @@ def worker(case: Dict[str, Any]) -> CaseResult:
             return CaseResult("inconclusive", note="generation failed (%s) - C04's concern" % gen.exc_type, stats={"generation_failed": 1})
         count("generated")
         try:
-            pkg = import_package(root, cfg.get("target_package_name", "graphql_client"))
+            pkg = import_package(gen.package_dir.parent, cfg.get("target_package_name", "graphql_client"))
         except BaseException as e:  # noqa: BLE001
             if "C04" in props:
                 import traceback as tb
@@ -823,12 +823,12 @@ def replay_shared(prop: str, data) -> int:
 NAME_SETS = [
     {"target_package_name": "my_pkg", "client_name": "MyClient", "client_file_name": "my_client", "enums_module_name": "my_enums",
      "input_types_module_name": "my_inputs", "fragments_module_name": "my_frags"},
-    {"target_package_name": "shop_api_v2", "client_name": "ShopV2", "client_file_name": "api_py", "enums_module_name": "vocabulary",
+    {"target_package_name": "shop_api_v2", "target_package_path": "src/generated", "client_name": "ShopV2", "client_file_name": "api_py", "enums_module_name": "vocabulary",
      "input_types_module_name": "enums_copy", "fragments_module_name": "shared_query"},
     {"target_package_name": "client", "client_name": "client", "client_file_name": "gateway", "fragments_module_name": "fragments2"},
     {"target_package_name": "ShopAPI", "client_name": "HTTPClient2", "client_file_name": "Gateway", "enums_module_name": "Enums", "input_types_module_name": "inputTypes"},
     {"target_package_name": "enums", "enums_module_name": "kinds", "input_types_module_name": "payloads_py", "fragments_module_name": "fragments_module"},
-    {"target_package_name": "_internal__api", "client_file_name": "_client", "enums_module_name": "e", "input_types_module_name": "i", "fragments_module_name": "f"},
+    {"target_package_name": "_internal__api", "target_package_path": "lib", "client_file_name": "_client", "enums_module_name": "e", "input_types_module_name": "i", "fragments_module_name": "f"},
 ]
 
 CUSTOM_BASE_CLIENT = '''"""A hand-written transport: the class ariadne-codegen is told to use as base client."""
@@ -869,6 +869,8 @@ def with_custom_operations(case: Dict[str, Any], i: int) -> None:
     if i % 7 == 3:
         case["cfg"] = dict(case["cfg"])
         case["cfg"].update(NAME_SETS[(i // 7) % len(NAME_SETS)])
+        if "target_package_path" in case["cfg"]:
+            case["extra_files"] = dict(case.get("extra_files") or {}, **{case["cfg"]["target_package_path"] + "/.keep": ""})  # the directory has to exist
     if i % 11 == 6:
         # a user's own base client (README: "avoid httpx" use case): two alternative definitions of the configured class, both inside a block
         case["cfg"] = dict(case["cfg"])
